@@ -174,6 +174,18 @@ def c06(tr, viol):
 def c07(tr, viol):
     unanswered = {}
     for i, (e, o) in enumerate(zip(tr.events, tr.obs)):
+        before = tr.obs[i - 1]["snap"] if i else {"conns": []}
+        if e["ev"] == "recv" and len(tr.frames[i]) == 1:
+            # an application request read on a ready connection is dealt with at once: handed to an application or
+            # answered by the node (unless the socket takes nothing / the timer pass closed the connection first)
+            fr, cid = tr.frames[i][0], e["cid"]
+            cb = conn_of(before, cid)
+            if fr["req"] and fr["cmd"].startswith("App") and cb and cb[2] in (2, 3) and cid not in o["stalled"] and cid not in o["closed"]:
+                ans = [s for s in o["sends"].get(cid, []) if not s["req"] and s["hbh"] == fr["hbh"] and s["e2e"] == fr["e2e"]]
+                deliv = [d for d in o["delivered"] if d[1] == fr["hbh"] and d[2] == fr["e2e"]]
+                if not ans and not deliv:
+                    viol("request-dealt-with", case_of(tr, i), {"answers": [], "delivered": []}, "an answer or a delivery",
+                         what="a request read on a ready connection was neither answered nor handed to an application")
         if e["ev"] == "recv":
             for fr in tr.frames[i]:
                 if fr["req"]:
@@ -196,6 +208,8 @@ def c07(tr, viol):
 def c08(tr, viol):
     routes = tr.routes()
     answered_e2e = {}     # origin -> list of e2e answered (for the T-flag exception)
+    unseen_answers = {}   # origin -> e2e of requests answered while their connection's socket was stalled (answer not yet on the wire)
+    req_origin = {}       # (hbh, e2e) -> (origin, cid) of received requests
     for i, (e, o) in enumerate(zip(tr.events, tr.obs)):
         before = tr.obs[i - 1]["snap"] if i else {"conns": []}
         if e["ev"] == "recv":
@@ -206,8 +220,8 @@ def c08(tr, viol):
                 fr = tr.frames[i][0]
                 if fr["req"] and fr["cmd"].startswith("App"):
                     origin = fr["origin"][1].lower() if fr["origin"][0] == "Present" else None
-                    if fr["t"] and origin and fr["e2e"] in answered_e2e.get(origin, []):
-                        pass   # C17
+                    if fr["t"] and origin and (fr["e2e"] in answered_e2e.get(origin, []) or fr["e2e"] in unseen_answers.get(origin, set())):
+                        pass   # C17 (an answer accepted while the socket took nothing counts as well: it is queued, not yet visible)
                     else:
                         ans = next((s for s in o["sends"].get(cid, []) if not s["req"] and s["hbh"] == fr["hbh"] and s["e2e"] == fr["e2e"]), None)
                         deliv = [d for d in o["delivered"] if d[1] == fr["hbh"] and d[2] == fr["e2e"]]
@@ -258,6 +272,18 @@ def c08(tr, viol):
                 if not s["req"]:
                     for fr_i in range(i + 1):
                         pass
+        if e["ev"] == "recv":
+            for fr in tr.frames[i]:
+                if fr["req"] and fr["origin"][0] == "Present":
+                    req_origin[(fr["hbh"], fr["e2e"])] = (fr["origin"][1].lower(), e["cid"])
+                    if e["cid"] in o["stalled"]:
+                        # whatever the node answers to it now stays in the write buffer
+                        unseen_answers.setdefault(fr["origin"][1].lower(), set()).add(fr["e2e"])
+        if e["ev"] == "app_answer" and o["results"] and o["results"][0] == "ok":
+            m_ = e["msg"]
+            k_ = (m_.header.hop_by_hop_identifier, m_.header.end_to_end_identifier)
+            if k_ in req_origin and req_origin[k_][1] in o["stalled"]:
+                unseen_answers.setdefault(req_origin[k_][0], set()).add(k_[1])
         # remember answered requests per origin (for the T-flag rule)
         for cid, ms in o["sends"].items():
             for s in ms:
@@ -281,14 +307,28 @@ def c09(tr, viol):
                 self_answered = any((not s["req"]) and s["hbh"] == d[1] and s["e2e"] == d[2] for s in o["sends"].get(e["cid"], [])) \
                     or any(fr.get("tag") == 1 and fr["hbh"] == d[1] and fr["e2e"] == d[2] for fr in tr.frames[i])   # (answer may be held back by a stalled socket)
                 if not self_answered:
-                    arrived[(d[1], d[2])] = e["cid"]
+                    # (two connections may have open requests with the very same identifiers: either is "the" requester)
+                    # (the same request delivered twice on one connection -- a retransmission that arrives before the
+                    # answer -- is still ONE open request there)
+                    if e["cid"] not in arrived.setdefault((d[1], d[2]), []):
+                        arrived[(d[1], d[2])].append(e["cid"])
         if e["ev"] == "app_answer":
             m = e["msg"]
             key = (m.header.hop_by_hop_identifier, m.header.end_to_end_identifier)
-            want_cid = arrived.pop(key, None)
+            sent_on = [cid for cid, ms in o["sends"].items() if any((not s["req"]) and s["hbh"] == key[0] and s["e2e"] == key[1] for s in ms)]
+            cands = arrived.get(key, [])
+
+            def _ready(c_):
+                x_ = conn_of(before, c_)
+                return x_ is not None and x_[2] in (2, 3)
+            want_cid = None
+            if cands:
+                want_cid = sent_on[0] if len(sent_on) == 1 and sent_on[0] in cands else next((c_ for c_ in cands if _ready(c_)), cands[0])
+                cands.remove(want_cid)
+                if not cands:
+                    arrived.pop(key, None)
             cb = conn_of(before, want_cid) if want_cid is not None else None
             ok_conn = cb is not None and cb[2] in (2, 3)
-            sent_on = [cid for cid, ms in o["sends"].items() if any((not s["req"]) and s["hbh"] == key[0] and s["e2e"] == key[1] for s in ms)]
             res = o["results"][0] if o["results"] else None
             if want_cid is not None and ok_conn:
                 if res not in ("ok", None):
@@ -503,19 +543,34 @@ def c17(tr, viol):
                         # 5012 for another reason is possible only through handler failure, which these frames do not trigger
                         viol("no-false-duplicate", case_of(tr, i), ans,
                              what="a request that is not a retransmitted duplicate was rejected with 5012")
-        # window update: every answer written for a request that carried an Origin-Host
+        # window update: every answer for a request that carried an Origin-Host -- at the moment the node takes it (an
+        # answer may sit in the write buffer of a socket that takes nothing: it counts from the moment it was accepted)
+        def _record(key_):
+            origin_ = open_reqs.pop(key_, None)
+            if origin_ is not None:
+                w_ = window.setdefault(origin_, [])
+                w_.append(key_[2])
+                del w_[:-K]
         if e["ev"] == "recv":
+            cb_ = conn_of(before, e["cid"])
             for fr in tr.frames[i]:
                 if fr["req"] and fr["origin"][0] == "Present":
                     open_reqs[(e["cid"], fr["hbh"], fr["e2e"])] = fr["origin"][1].lower()
+                    delivered_ = any(d[1] == fr["hbh"] and d[2] == fr["e2e"] for d in o["delivered"])
+                    if e["cid"] in o["stalled"] and not delivered_ and cb_ and cb_[2] in (2, 3, 4) and e["cid"] not in o["closed"] \
+                            and fr.get("tag") != 1 and not (fr["cmd"] == "CE"):
+                        _record((e["cid"], fr["hbh"], fr["e2e"]))      # answered by the node itself, held back by the socket
+        if e["ev"] == "app_answer" and o["results"] and o["results"][0] == "ok":
+            m_ = e["msg"]
+            for key_ in [k_ for k_ in open_reqs if k_[1] == m_.header.hop_by_hop_identifier and k_[2] == m_.header.end_to_end_identifier]:
+                if not any((not s_["req"]) and s_["hbh"] == key_[1] and s_["e2e"] == key_[2] for s_ in o["sends"].get(key_[0], [])):
+                    if key_[0] in o["stalled"]:
+                        _record(key_)
+                        break
         for cid, ms in o["sends"].items():
             for s in ms:
                 if not s["req"]:
-                    origin = open_reqs.pop((cid, s["hbh"], s["e2e"]), None)
-                    if origin is not None:
-                        w = window.setdefault(origin, [])
-                        w.append(s["e2e"])
-                        del w[:-K]
+                    _record((cid, s["hbh"], s["e2e"]))
 
 
 # ------------------------------------------------------------------------------- C14 (thread deaths anywhere)
